@@ -517,17 +517,28 @@ def invalidSep (x : List Char) : Bool :=
 
 def numErr (s : LState) : ScanR := ⟨.stop, [], none, setErr s⟩
 
-/-- the part of `scanNumber` from "fractional part" on.  `plainPrefix` is
+/-- the final checks of `scanNumber` (invalid digit, separators, trailing junk) -/
+def numFinish (tok : Tok) (ch : Option Char) (digSep : Nat) (inv : Option Char) (acc : List Char)
+    (s : LState) : ScanR :=
+  if tok = .int && inv.isSome then numErr s
+  else if digSep &&& 2 ≠ 0 && invalidSep acc.reverse then numErr s
+  else if isIdentStart o ch then numErr s
+  else ⟨tok, acc.reverse, ch, s⟩
+
+/-- the "fractional part" block of `scanNumber`: token so far, current rune, digit/separator bits,
+    first invalid digit, text, state -/
+def fracPart (tok0 : Tok) (seenDot : Bool) (base : Nat) (ch : Option Char) (digSep : Nat)
+    (inv : Option Char) (acc : List Char) (s : LState) :
+    Tok × Option Char × Nat × Option Char × List Char × LState :=
+  if seenDot then
+    let (ch', ds, inv', acc', s') := digits base ch inv acc s
+    (Tok.numeric, ch', digSep ||| ds, inv', acc', s')
+  else (tok0, ch, digSep, inv, acc, s)
+
+/-- the "exponent" block of `scanNumber` and the final checks.  `plainPrefix` is
     `prefix == 0 || prefix == '0'`. -/
-def scanNumberTail (tok0 : Tok) (seenDot : Bool) (base : Nat) (plainPrefix : Bool)
-    (ch : Option Char) (digSep : Nat) (inv : Option Char) (acc : List Char) (s : LState) : ScanR :=
-  -- fractional part
-  let (tok1, ch1, digSep1, inv1, acc1, s1) :=
-    if seenDot then
-      let (ch', ds, inv', acc', s') := digits base ch inv acc s
-      (Tok.numeric, ch', digSep ||| ds, inv', acc', s')
-    else (tok0, ch, digSep, inv, acc, s)
-  -- exponent
+def expPart (plainPrefix : Bool) (tok1 : Tok) (ch1 : Option Char) (digSep1 : Nat)
+    (inv1 : Option Char) (acc1 : List Char) (s1 : LState) : ScanR :=
   let e := ch1.map lowerBit
   if e = some 'e' then
     if !plainPrefix then numErr s1
@@ -542,51 +553,58 @@ def scanNumberTail (tok0 : Tok) (seenDot : Bool) (base : Nat) (plainPrefix : Boo
         else (ch2, acc2, s2)
       let (ch4, ds, _, acc4, s4) := digits 10 ch3 none acc3 s3
       if ds &&& 1 = 0 then numErr s4
-      else finish .numeric ch4 (digSep1 ||| ds) inv1 acc4 s4
+      else numFinish o .numeric ch4 (digSep1 ||| ds) inv1 acc4 s4
   else if isIdentStart o e then numErr s1
-  else finish tok1 ch1 digSep1 inv1 acc1 s1
-where
-  finish (tok : Tok) (ch : Option Char) (digSep : Nat) (inv : Option Char) (acc : List Char)
-      (s : LState) : ScanR :=
-    if tok = .int && inv.isSome then numErr s
-    else if digSep &&& 2 ≠ 0 && invalidSep acc.reverse then numErr s
-    else if isIdentStart o ch then numErr s
-    else ⟨tok, acc.reverse, ch, s⟩
+  else numFinish o tok1 ch1 digSep1 inv1 acc1 s1
+
+/-- the part of `scanNumber` from "fractional part" on -/
+def scanNumberTail (tok0 : Tok) (seenDot : Bool) (base : Nat) (plainPrefix : Bool)
+    (ch : Option Char) (digSep : Nat) (inv : Option Char) (acc : List Char) (s : LState) : ScanR :=
+  let (tok1, ch1, digSep1, inv1, acc1, s1) := fracPart tok0 seenDot base ch digSep inv acc s
+  expPart o plainPrefix tok1 ch1 digSep1 inv1 acc1 s1
+
+/-- the `if ch == '0'` block of `scanNumber`, entered on the digit `0` (`acc` = text before it):
+    base, "prefix is 0 or '0'", digit/separator bits so far, current rune, text, state;
+    `none` = one of the two errors of that block -/
+def zeroPrefix (acc : List Char) (s : LState) :
+    Option (Nat × Bool × Nat × Option Char × List Char × LState) :=
+  let (ch, s1) := next s
+  let acc1 := '0' :: acc
+  let lc := ch.map lowerBit
+  if lc = some 'x' || lc = some 'o' || lc = some 'b' then
+    let (ch', s2) := next s1
+    let base := if lc = some 'x' then 16 else if lc = some 'o' then 8 else 2
+    some (base, false, 0, ch', (ch.getD 'x') :: acc1, s2)
+  else if lc = some '.' then some (8, true, 1, ch, acc1, s1)
+  else if ch = some '_' then none
+  else if isDecimalR ch then none
+  else some (8, true, 1, ch, acc1, s1)
+
+/-- the integer part of `scanNumber` after the prefix, and everything after it -/
+def scanNumberBody (base : Nat) (plainPrefix : Bool) (digSep0 : Nat) (ch : Option Char)
+    (acc1 : List Char) (s1 : LState) : ScanR :=
+  if ch = some '_' then numErr s1
+  else
+    let (ch2, ds, inv, acc2, s2) := digits base ch none acc1 s1
+    let digSep := digSep0 ||| ds
+    if digSep &&& 1 = 0 then numErr s2
+    else if ch2 = some '.' then
+      if !plainPrefix then ⟨.int, acc2.reverse, ch2, s2⟩
+      else
+        let (ch3, s3) := next s2
+        scanNumberTail o .int true base plainPrefix ch3 digSep inv ('.' :: acc2) s3
+    else scanNumberTail o .int false base plainPrefix ch2 digSep inv acc2 s2
 
 /-- `scanNumber(ch, seenDot)`; `acc` is the token text already consumed (`['.']` when entered
     from the `'.'` case of `Lex`), `c` the current rune (a decimal digit) -/
 def scanNumber (c : Char) (seenDot : Bool) (acc : List Char) (s : LState) : ScanR :=
   if seenDot then scanNumberTail o .numeric true 10 true (some c) 0 none acc s
-  else
-    -- integer part: optional prefix
-    let pre : Option (Nat × Bool × Nat × Option Char × List Char × LState) :=
-      if c = '0' then
-        let (ch, s1) := next s
-        let acc1 := c :: acc
-        let lc := ch.map lowerBit
-        if lc = some 'x' || lc = some 'o' || lc = some 'b' then
-          let (ch', s2) := next s1
-          let base := if lc = some 'x' then 16 else if lc = some 'o' then 8 else 2
-          some (base, false, 0, ch', (ch.getD 'x') :: acc1, s2)
-        else if lc = some '.' then some (8, true, 1, ch, acc1, s1)
-        else if ch = some '_' then none
-        else if isDecimalR ch then none
-        else some (8, true, 1, ch, acc1, s1)
-      else some (10, true, 0, some c, acc, s)
-    match pre with
-    | none => numErr s
+  else if c = '0' then
+    match zeroPrefix acc s with
+    | none => numErr (next s).2          -- the rune after the `0` has been read
     | some (base, plainPrefix, digSep0, ch, acc1, s1) =>
-      if ch = some '_' then numErr s1
-      else
-        let (ch2, ds, inv, acc2, s2) := digits base ch none acc1 s1
-        let digSep := digSep0 ||| ds
-        if digSep &&& 1 = 0 then numErr s2
-        else if ch2 = some '.' then
-          if !plainPrefix then ⟨.int, acc2.reverse, ch2, s2⟩
-          else
-            let (ch3, s3) := next s2
-            scanNumberTail o .int true base plainPrefix ch3 digSep inv ('.' :: acc2) s3
-        else scanNumberTail o .int false base plainPrefix ch2 digSep inv acc2 s2
+      scanNumberBody o base plainPrefix digSep0 ch acc1 s1
+  else scanNumberBody o 10 true 0 (some c) acc s
 
 /-! ## `Lex` -/
 
